@@ -63,6 +63,21 @@ Fixpoint l_fill (u1 : Q) (st : lstate) (t : list entry) : option lstate :=
       end
   end.
 
+(** tables without the activity flag; the active unit is chosen by its index in the insertion order *)
+Definition utable := list (Q * Z).
+
+Definition inactive (t : utable) : list entry := map (fun e => (fst e, snd e, false)) t.
+
+Fixpoint activate (a : nat) (t : utable) : list entry :=
+  match t with
+  | [] => []
+  | e :: t' =>
+      match a with
+      | O => (fst e, snd e, true) :: inactive t'
+      | S a' => (fst e, snd e, false) :: activate a' t'
+      end
+  end.
+
 (** the cumulative walk shared by the three schemes:
     [for index, rate in enumerate(neg): summed += rate; if position <= summed: return index] *)
 Fixpoint walk (p acc : Q) (idx : nat) (l : list Q) : option nat :=
